@@ -24,7 +24,7 @@ from concurrent.futures import ProcessPoolExecutor
 from ..check import ALL, analyse
 
 
-SHAPE_KINDS = ("flip", "invert", "kwargs", "aug", "noise", "annot", "inlinetemp", "extracttemp", "comp2loop", "swapindep", "splitunpack", "imports", "mergeif", "splitif", "elsewrap", "unelse", "ternary2if", "demorgan", "unguard")
+SHAPE_KINDS = ("flip", "invert", "kwargs", "aug", "noise", "annot", "inlinetemp", "extracttemp", "comp2loop", "swapindep", "splitunpack", "imports", "mergeif", "splitif", "elsewrap", "unelse", "ternary2if", "demorgan", "unguard", "pos2kw")
 
 
 def _variants(prop, renamed_mutants=False, reshaped_mutants=False):
@@ -170,7 +170,7 @@ def run_one(task):
         from .shape import reshaped, reshaped_package
         full = dict(reshaped_package(root, v["reshape"]))
         for rel, src in overlay.items():
-            full[rel] = reshaped(src, v["reshape"])
+            full[rel] = reshaped(src, v["reshape"], rel, root)
         overlay = full
     if v.get("rename"):
         from .rename import renamed, renamed_package
